@@ -13,13 +13,13 @@ from harness.common import Check, seed
 from harness.peerdrv import PeerWorld
 from harness.ribdrv import ATTRS, KEYS, RibWorld
 
-FIELDS = {'tid': 0, 'e': '', 'name': '', 'k': '', 'a': '', 'fam': '', 'ann': [], 'wd': [], 'cache': {}}
+FIELDS = {'tid': 0, 'e': '', 'name': '', 'k': '', 'a': '', 'fam': '', 'ann': [], 'wd': [], 'cache': {}, 'hascache': True, 'cfg': {}}
 KS = ['k1', 'k2', 'k3']
 FAMS = ['v4u', 'v6u']
 
 
 class SystemWorld(PeerWorld):
-    def __init__(self, configured: dict, rate_limit: bool, **kw) -> None:
+    def __init__(self, configured: dict, rate_limit: bool, tail: str = '', no_adj_rib_out: bool = False, **kw) -> None:
         static = ''
         if configured:
             routes = []
@@ -28,11 +28,13 @@ class SystemWorld(PeerWorld):
                 prefix, _, rest = ktext.partition(' ')
                 routes.append(f'route {prefix} {ATTRS[a][fam]} {rest};')
             static = 'static { ' + ' '.join(routes) + ' }'
-        super().__init__(static=static, extra='rate-limit 100;' if rate_limit else '', **kw)
+        self.has_cache = not no_adj_rib_out
+        extra = ('rate-limit 100;' if rate_limit else '') + (' adj-rib-out false;' if no_adj_rib_out else '')
+        super().__init__(static=static, extra=extra, tail=tail, route_refresh=not no_adj_rib_out, **kw)
         self.namer = RibWorld(conf=self.conf, neighbor=self.neighbor, fresh_rib=False)
         self.sys: list[dict] = []
         self.seen = 0
-        self.slog('Begin', cache=self.cache())
+        self.slog('Begin', cache=self.cache(), cfg={k: configured.get(k, 'none') for k in KS})
 
     def cache(self) -> dict:
         c = self.namer.cache_table()
@@ -41,6 +43,7 @@ class SystemWorld(PeerWorld):
     def slog(self, e: str, **kw) -> None:
         d = dict(FIELDS)
         d['e'] = e
+        d['hascache'] = getattr(self, 'has_cache', True)
         d.update(kw)
         self.sys.append(d)
 
